@@ -173,13 +173,15 @@ def close_step(ck, prog, kind, expanded):
         others = [e for e in eff if not (e.kind == 'send' and same(e.asset, name) and same(e.dst, 'creator'))]
         ck.oblige('C12.close.recipient.' + tag, p, len(others) != 0, 'the refund goes to the flow creator only')
         funded = st['expanded_total']
+        owed = z3.If(funded >= st['f_claimed'], funded - st['f_claimed'], 0)
         if expanded:
             base = z3.If(st['f_amount'] >= st['f_claimed'], st['f_amount'] - st['f_claimed'], 0)
-            ck.oblige('C12.close.refund.expanded.ignores_expansion', p, z3.And(refund == base, refund != funded - st['f_claimed']),
+            known = z3.And(refund == base, refund != owed)          # exactly the behaviour of the defect: the expansion is ignored
+            ck.oblige('C12.close.refund.expanded.ignores_expansion', p, known,
                       'close refunds flow_asset.amount - claimed, ignoring expansions recorded in asset_history', site='close_flow ignores asset_history')
-            ck.oblige('C12.close.refund.base.' + tag, p, refund != z3.If(st['f_amount'] >= st['f_claimed'], st['f_amount'] - st['f_claimed'], 0), 'refund = original amount - claimed (saturating)')
+            ck.oblige('C12.close.refund.' + tag, p, z3.And(z3.Not(known), refund != owed), 'closing returns exactly funded (latest expansion total) minus claimed')
         else:
-            ck.oblige('C12.close.refund.' + tag, p, refund != funded - st['f_claimed'], 'closing returns exactly funded minus claimed')
+            ck.oblige('C12.close.refund.' + tag, p, refund != owed, 'closing returns exactly funded minus claimed')
         ck.oblige('C12.close.removed.' + tag, p, len(p.world.storage['flows'].entries) != 0, 'the flow is removed')
     ck.require(n >= 1, tag + ': no Ok path')
 
